@@ -774,9 +774,17 @@ Ltac plx_x2 := repeat first
   | match goal with Hn : new_lock _ _ _ _ = (?s', _) |- plx _ _ _ _ ?s' =>
       eapply plx_trans; [|eapply plx_new_lock; [exact Hn|]] end ].
 
+Definition good (s : db) (x : ref) : Prop := dead s x /\ x < next s.
+
+Lemma chg1_dead s s' r (V : view -> Prop) : chg1 s s' r V -> (forall v, V v -> v_to v = true) -> dead s' r.
+Proof.
+  intros C HV. unfold dead, getl. destruct (aget (store s') r) as [l'|] eqn:El'; auto.
+  assert (X := chg_v _ _ _ _ C _ _ El'). rewrite N.eqb_refl in X. apply HV in X. exact X.
+Qed.
+
 Lemma lock_step_pl s conn c s' ev w :
   lock_step s conn c = (s', ev, w) -> core_cmd c -> hdead s ->
-  plx (eq (next s)) (fun x => (x = next s /\ next s < next s') \/ href s x) (fun x => x = next s /\ next s < next s') s s'.
+  plx (eq (next s)) (fun x => (x = next s /\ good s' x) \/ href s x) (fun x => x = next s /\ next s < next s') s s'.
 Proof.
   intros H Hcore Hd. assert (Hcore0 := Hcore). destruct Hcore as (Hack & Hms & Hems & Hdata).
   unfold lock_step in H. cbv beta zeta in H.
@@ -810,11 +818,11 @@ Proof.
       by (intros ? ? HH; exact HH);
     match goal with Hn : new_lock ?S0 ?k' ?conn' ?c' = (?s1, ?r), HE : add_expried ?X _ ?r = (?Y, ?aev) |- _ \/ _ =>
       left;
-      match goal with |- _ /\ _ < next ?S' =>
+      match goal with |- _ /\ good ?S' _ =>
         assert (K1 : keep (updm (add_lock s1 k' r) k' (fun m => m <| m_locked := add32 (m_locked m) 1 |>)) X) by apply keep_refl;
         assert (K2 : keep Y S') by keep_x;
-        destruct (new_hold_chg S0 k' conn' c' s1 r _ X Y aev S' Hn Hf K1 HE K2) as ((Hr' & Hlt) & _ & _);
-        split; [exact Hr'|apply (N.le_lt_trans _ r); [rewrite Hr'; apply N.le_refl|exact Hlt]]
+        destruct (new_hold_chg S0 k' conn' c' s1 r _ X Y aev S' Hn Hf K1 HE K2) as ((Hr' & Hlt) & Hc' & _);
+        split; [exact Hr'|split; [eapply chg1_dead; [exact Hc'|intros v ->; reflexivity]|exact Hlt]]
       end
     end].
   all: try solve [
